@@ -54,7 +54,7 @@ func init() {
 			"encode->decode round trips between variables, HashToGroup, EncodeToGroup, HashToScalar, scalar Zero/One/MinusOne/Set/Copy/Add/Subtract/Multiply/Square/Invert/Pow/SetUInt64/Decode/CSelect/Random (scripted entropy). " +
 			"Initial pools contain non-canonical identities (0:Y:0) and λ-scaled points injected through the accessor. " +
 			"Oracle: an abstract model (variable -> affine point or integer mod n) stepped in lock-step; after every step every variable is read through Encode, EncodeUncompressed, IsIdentity, IsZero, IsOne, Bits and the full Equal matrix (both orders), " +
-			"every element's raw coordinates must satisfy the curve equation, and every non-receiver variable must be bit-identical to before the step. evaluations = observations; non-trivial = a history with >= 10 steps; distinct by the whole history.",
+			"every element's raw coordinates must satisfy the curve equation, and every non-receiver variable must be bit-identical to before the step. evaluations = observations; Also: structured histories whose decode steps go through every steered point; hashing steps on record buffers / long-lived reused buffers, called twice; invalid hex literals; 8 and 24 histories run side by side as independent instances. non-trivial = a history with >= 10 steps; distinct by the whole history.",
 		NewCase:  func() any { return &c10Case{} },
 		Generate: c10Generate,
 		Run:      c10Run,
